@@ -14,8 +14,21 @@ PRED = [("is_equal", "v_eq"), ("is_greater", "v_ugt"), ("is_greater_or_equal", "
         ("is_greater_or_equal_signed", "v_sge")]
 
 
-def gen(widths, cheap_widths=(), max_total=128):
-    """widths: every harness; cheap_widths: only the operations that stay cheap on multi-word values"""
+def gen(widths, cheap_widths=(), max_total=128, usage=None):
+    """widths: every harness; cheap_widths: only the operations that stay cheap on multi-word values;
+    usage: {op: (closure params, closure body)} — where an evaluator arm of patronus does MORE than the plain baa call (a work-around
+    around a dependency defect), the kernel checks the arm's closure body, cut from eval.rs, instead of the bare operation"""
+    usage = usage or {}
+    def call2(op):
+        if op in usage:
+            ps, body = usage[op]
+            return "{ let " + ps[0] + " = x.clone(); let " + ps[1] + " = y.clone(); " + body + " }"
+        return f"x.{op}(&y)"
+    def call1(op):
+        if op in usage:
+            ps, body = usage[op]
+            return "{ let " + ps[0] + " = x.clone(); " + body + " }"
+        return f"x.{op}()"
     out = ["""#![allow(unused, non_snake_case)]
 pub mod reference;
 #[cfg(kani)]
@@ -56,15 +69,15 @@ mod harness {
                   f"        let b: u128 = match k {{ 0 => 0, 1 => 1, 2 => 2, 3 => 3, 4 => rmask({w}), 5 => 1u128 << ({w} - 1), 6 => 1u128 << ({w} / 2), _ => rmask({w}) - 1 }};\n"
                   f"        let y = BitVecValue::from_u128(b, {w});\n        kani::cover!(k == 7);\n        check(&x.mul(&y), {w}, v_mul({w}, a, b));\n")
                 continue
-            h(f"k_{op}_w{w}", f"        let (a, x) = any_bv({w}); let (b, y) = any_bv({w});\n        kani::cover!(a != b);\n        check(&x.{op}(&y), {w}, v_{op}({w}, a, b));\n")
+            h(f"k_{op}_w{w}", f"        let (a, x) = any_bv({w}); let (b, y) = any_bv({w});\n        kani::cover!(a != b);\n        check(&{call2(op)}, {w}, v_{op}({w}, a, b));\n")
         for op, ref in SHIFT:
             if cheap_only:
                 continue
-            h(f"k_{op}_w{w}", f"        let (a, x) = any_bv({w}); let (b, y) = any_bv({w});\n        kani::cover!(b >= {w});\n        check(&x.{op}(&y), {w}, {ref}({w}, a, b));\n")
+            h(f"k_{op}_w{w}", f"        let (a, x) = any_bv({w}); let (b, y) = any_bv({w});\n        kani::cover!(b >= {w});\n        check(&{call2(op)}, {w}, {ref}({w}, a, b));\n")
         for op, ref in UN:
             if cheap_only and op != "not":
                 continue
-            h(f"k_{op}_w{w}", f"        let (a, x) = any_bv({w});\n        kani::cover!(a != 0);\n        check(&x.{op}(), {w}, {ref}({w}, a));\n")
+            h(f"k_{op}_w{w}", f"        let (a, x) = any_bv({w});\n        kani::cover!(a != 0);\n        check(&{call1(op)}, {w}, {ref}({w}, a));\n")
         for op, ref in PRED:
             h(f"k_{op}_w{w}", f"        let (a, x) = any_bv({w}); let (b, y) = any_bv({w});\n        kani::cover!(a == b);\n        assert!(x.{op}(&y) == {ref}({w}, a, b));\n")
         # predicates on one value
